@@ -147,7 +147,7 @@ func directEffects(fn *ssa.Function) *effects {
 					add(e.FieldWrites, w, in, "whole-struct store")
 				}
 				// storing an address of a field/global somewhere = escape
-				if f2, g2, _ := rootOfAddrIfAddr(x.Val); f2 != "" || g2 != "" {
+				if f2, g2, _ := rootOfAddrIfAddr(x.Val); (f2 != "" || g2 != "") && !(f2 == f && g2 == g) {
 					if f2 != "" {
 						add(e.Escapes, f2, in, "address stored")
 					}
